@@ -251,9 +251,36 @@ def run(ctx) -> None:
     ev = ctf.find_method("_evaluate_from_angular_grid")
     comp_calls = []
     for c in walk_no_nested(ev.node):
-        if isinstance(c, ast.Call) and isinstance(c.func, ast.Attribute) and c.func.attr == "_evaluate_from_angular_grid" \
-                and isinstance(c.func.value, ast.Attribute) and dotted(c.func.value.value) == "self":
-            comp_calls.append((c.lineno, c.func.value.attr))
+        if not (isinstance(c, ast.Call) and isinstance(c.func, ast.Attribute)
+                and c.func.attr == "_evaluate_from_angular_grid"):
+            continue
+        recv = c.func.value
+        if isinstance(recv, ast.Attribute) and dotted(recv.value) == "self":
+            comp_calls.append(((c.lineno, 0), recv.attr))
+        elif isinstance(recv, ast.Name):
+            # `for factor in factors: factor._evaluate_from_angular_grid(...)`: the components are applied in the
+            # order in which they were put into the list (literal elements, then appends in statement order)
+            loop = next((l for l in walk_no_nested(ev.node) if isinstance(l, ast.For) and isinstance(l.target, ast.Name)
+                         and l.target.id == recv.id and any(x is c for x in ast.walk(l))), None)
+            if loop is None or not isinstance(loop.iter, ast.Name):
+                raise AnalysisError(f"{ev.qualname}: component call through `{recv.id}` is not a loop over a local list")
+            lst, k = loop.iter.id, 0
+            for st in walk_no_nested(ev.node):
+                if isinstance(st, (ast.Assign, ast.AnnAssign)):
+                    tg = st.targets[0] if isinstance(st, ast.Assign) else st.target
+                    if dotted(tg) == lst and isinstance(st.value, (ast.List, ast.Tuple)):
+                        for e in st.value.elts:
+                            if isinstance(e, ast.Attribute) and dotted(e.value) == "self":
+                                k += 1
+                                comp_calls.append(((c.lineno, k), e.attr))
+                if isinstance(st, ast.Expr) and isinstance(st.value, ast.Call) and isinstance(st.value.func, ast.Attribute) \
+                        and st.value.func.attr == "append" and dotted(st.value.func.value) == lst and st.value.args:
+                    e = st.value.args[0]
+                    if isinstance(e, ast.Attribute) and dotted(e.value) == "self":
+                        k += 1
+                        comp_calls.append(((c.lineno, k), e.attr))
+                    else:
+                        raise AnalysisError(f"{ev.qualname}: `{norm_text(st)[:50]}` appends something that is not a component")
     comp_calls.sort()
     comp_order = [n for _, n in comp_calls]
     owner = {"_aberrations": POLAR, "_spatial_envelope": "angular_spread", "_temporal_envelope": "focal_spread",
